@@ -738,6 +738,16 @@ def exhaustive_cases():
                         "mode": mode, "F": [], "tree": tree,
                         "ops": [dict(_fl(ra, va), vals=VALS0)], "bf": [], "expr": ["m", 0], "sink": ["check"],
                     }
+    # Python-scalar value leaves (as in the repository's tests), scalar flags, eager
+    eopts, _ = _static_reps("eager")
+    for op in ("or", "xor"):
+        for (ra, va), (rb, vb) in itertools.product(eopts, repeat=2):
+            yield {
+                "mode": "eager", "F": [], "tree": TREES["py_mix"],
+                "ops": [dict(_fl(ra, va), vals=VALS0), dict(_fl(rb, vb), vals=VALS1), dict(_fl("py", True), vals=VALS2)],
+                "bf": [], "expr": [op, ["m", 0], ["m", 1]],
+                "sink": ["multi", [["obs"], ["flatten"], ["unmask", 2]]],
+            }
     # vector flags holding every combination, array and traced
     stree = strip_trailing(tree)
     f2a, f2b = [True, True, False, False], [True, False, True, False]
@@ -955,7 +965,7 @@ def run(ctx):
     if ctx.shard == 0:
         ctx.extra["exhaustive_cases_total"] = n
     # --- generated expressions ----------------------------------------------------------------
-    ctx.run_hypothesis(case_strategy(), one, ctx.pick(30, 400), salt="expr")
+    ctx.run_hypothesis(case_strategy(), one, ctx.pick(30, 800), salt="expr")
     ctx.extra["jit_or_vmap_programs"] = _COMPILES[0]
 
 
